@@ -89,6 +89,7 @@ func (match4Engine) Run(ctx *fw.Ctx, cs any) {
 			if rng.Intn(3) == 0 {
 				p.Opts = append(p.Opts, pkt.O4(116, 1))
 			}
+			p.Opts = append(p.Opts, noise4(rng, false, false)...)
 			switch rng.Intn(4) {
 			case 0:
 				p.Gi = pkt.IP4("10.9.9.9")
@@ -130,6 +131,19 @@ func (match4Engine) Run(ctx *fw.Ctx, cs any) {
 					p2.Gi = pkt.IP4("10.9.9.9")
 					datas = append(datas, p2.Bytes())
 				}
+			}
+		}
+		// a client that limits the reply size (option 57) while the echoed options are large
+		for _, maxsz := range []uint16{576, 577, 600, 800, 1000, 1500} {
+			for _, l := range []int{100, 200, 255} {
+				xid++
+				v61 := make([]byte, l)
+				rng.Read(v61)
+				v82 := make([]byte, l)
+				rng.Read(v82)
+				p := pkt.Request4(xid, []byte{2, 0, 0, 0, 4, byte(l)}, mt, pkt.O4(57, byte(maxsz>>8), byte(maxsz)), pkt.O4(61, v61...), pkt.O4(82, v82...), pkt.O4(55, 1, 3, 6, 15, 51, 54, 119, 121))
+				p.Gi = pkt.IP4("10.9.9.9")
+				datas = append(datas, p.Bytes())
 			}
 		}
 		// both echoed options at their maximum, plus a 255-entry parameter list: a large reply
